@@ -103,6 +103,7 @@ Devs(cls) ==
           <<"use_ste", "b:0">>, <<"use_variables", "b:1">>}
     [] cls = "quantized_relu_po2" ->
          {<<"bits", "i:3">>, <<"max_value", "f:0.5">>, <<"max_value", "i:4">>, <<"negative_slope", "f:0.25">>,
+          <<"negative_slope", "f:0.0009765625">>,       \* 2^-10: more significant digits than a short float format keeps
           <<"use_stochastic_rounding", "b:1">>, <<"quadratic_approximation", "b:1">>, <<"log2_rounding", "s:floor">>,
           <<"qnoise_factor", "f:0.5">>, <<"use_ste", "b:0">>, <<"use_variables", "b:1">>}
     [] cls = "quantized_hswish" ->
